@@ -102,7 +102,7 @@ type EStack struct {
 	Locs    []ELoc
 	AltLocs [][]ELoc // other acceptable address lists (rule order left open by the documentation)
 	Vals    []Range
-	Bytes   *int64 // expected "bytes" numeric label, nil = not checked
+	Bytes   []int64 // acceptable values of the "bytes" numeric label, nil = not checked
 }
 
 // Exp is the expected abstract result.
@@ -394,14 +394,15 @@ func expectHeap(d *Doc) *Exp {
 		}
 		c, sz := val(r.N, r.B)
 		s.Vals = append(s.Vals, c, sz)
-		var bs int64
-		switch {
-		case r.N != 0:
-			bs = r.B / r.N
-		case alloc && r.AN != 0:
-			bs = r.AB / r.AN
+		// The block size is bytes/objects of the record. With distinct
+		// allocation columns whose quotient differs, either is accepted; a
+		// record without in-use objects has no defined block size.
+		if r.N != 0 {
+			s.Bytes = []int64{r.B / r.N}
+			if alloc && r.AN != 0 && r.AB/r.AN != r.B/r.N {
+				s.Bytes = append(s.Bytes, r.AB/r.AN)
+			}
 		}
-		s.Bytes = &bs
 		e.Stacks = append(e.Stacks, s)
 	}
 	return e
@@ -631,8 +632,7 @@ func expectJava(d *Doc) *Exp {
 		e.Types = []ap.VT{{Type: "inuse_objects", Unit: "count"}, {Type: "inuse_space", Unit: "bytes"}}
 		for _, r := range d.Recs {
 			c, sz := unsample(r.N, r.B, 524288)
-			bs := r.B / r.N
-			e.Stacks = append(e.Stacks, EStack{Locs: javaLocs(r.Addrs), Vals: []Range{c, sz}, Bytes: &bs})
+			e.Stacks = append(e.Stacks, EStack{Locs: javaLocs(r.Addrs), Vals: []Range{c, sz}, Bytes: []int64{r.B / r.N}})
 		}
 	case "contentionz":
 		e.Types = []ap.VT{{Type: "contentions", Unit: "count"}, {Type: "delay", Unit: "microseconds"}}
